@@ -399,6 +399,61 @@ def check_unify(acc: core.Acc, world: World, segs: list, seps: list, p: str) -> 
 
 # ---------------------------------------------------------------------------------------------
 
+FOREIGN_PATHS = ['../root_evil/secret.txt', '..\\root_evil\\secret.txt', '../outside.txt', '../rootX/s.txt', 'sub/../../outside.txt']
+
+
+def check_foreign_handles(acc: core.Acc, world: World) -> None:
+    """File *objects* as input: handles whose stored name was never validated against this root (made by an unconstrained
+    filesystem on the same folder, by an ancestor-rooted one, or while constrain_path was switched off and back on)."""
+    from srctools.filesys import RawFileSystem, RootEscapeError
+    root_dir = os.path.join(world.W, 'root')
+    outside = {sentinel(rel) for rel in OUTSIDE}
+    for how in ('unconstrained_donor', 'toggled_constraint', 'absolute_name_via_ancestor'):
+        for path in FOREIGN_PATHS + [os.path.join(world.W, 'root_evil', 'secret.txt')]:
+            fs = RawFileSystem(root_dir)
+            try:
+                if how == 'unconstrained_donor':
+                    handle = RawFileSystem(root_dir, constrain_path=False)[path]
+                elif how == 'toggled_constraint':
+                    fs.constrain_path = False
+                    handle = fs[path]
+                    fs.constrain_path = True
+                else:
+                    if not os.path.isabs(path):
+                        continue
+                    handle = RawFileSystem(world.W)[path]
+            except (FileNotFoundError, NotADirectoryError, RootEscapeError):
+                continue
+            for op in ('open_bin', 'open_str', 'File.open_bin'):
+                acc.evaluations += 1
+                acc.nontrivial += 1
+                case = {'segs': [path], 'seps': [], 'op': 'foreign_handle', 'cfg': how, 'handle_op': op}
+                try:
+                    if op == 'File.open_bin':
+                        if handle.sys is not fs:
+                            continue
+                        f = handle.open_bin()
+                    else:
+                        f = getattr(fs, op)(handle)
+                    with f:
+                        data = f.read(READ_CAP)
+                    data = data.encode() if isinstance(data, str) else data
+                except RootEscapeError:
+                    acc.outcome(('foreign', how, op, 'rejected'))
+                    continue
+                except NOTFOUND:
+                    acc.outcome(('foreign', how, op, 'notfound'))
+                    continue
+                except Exception as exc:  # noqa: BLE001
+                    acc.fail('foreign_exception', case, f'{op}(<File {path!r} from {how}>) raised {type(exc).__name__}: {exc}', op=op, via='handle')
+                    continue
+                acc.outcome(('foreign', how, op, 'opened'))
+                if data in outside:
+                    acc.fail('outside_file_opened', case,
+                             f'constrained RawFileSystem(<W>/root).{op}(<File {path!r} obtained via {how}>) returned the outside file {data!r}',
+                             op=op, via='handle', cause='unvalidated_file_handle')
+
+
 def sep_assignments(n: int, mode: str) -> list:
     """Separator assignments for n segments (n-1 separators)."""
     k = n - 1
@@ -451,11 +506,16 @@ def shard(spec) -> core.Acc:
                     check_call(acc, world, cfg, fs, prefix, op, segs, seps, p, narrow, broad)
             check_unify(acc, world, segs, seps, p)
         acc.count('paths', n_paths)
+        if spec == _FIRST_SHARD[0]:
+            check_foreign_handles(acc, world)
         if n_paths:
             acc.sample({'segs': segs, 'seps': seps, 'path': world.show(p), 'configs': 'all', 'ops': 'all'}, 1)
     finally:
         os.chdir(cwd)
     return acc
+
+
+_FIRST_SHARD: list = [None]
 
 
 def plan(quick: bool) -> tuple[list, str]:
@@ -495,6 +555,7 @@ def run(ctx: core.Ctx) -> None:
     build_fixture(W)
     _WORLD = World(W)
     shards, desc = plan(ctx.quick)
+    _FIRST_SHARD[0] = shards[0]        # the shard that also runs the File-handle battery (inherited by the forked workers)
     k = ctx.seed % len(shards)
     shards = shards[k:] + shards[:k]
     cwd = os.getcwd()
@@ -505,7 +566,7 @@ def run(ctx: core.Ctx) -> None:
         _WORLD = None
     ctx.rule = (f'every path string of segments from {SEGS} (first segment additionally the absolute spelling of '
                 f'W/root, W/root_evil, W/rootX with either slash), {desc}; x {len(CONFIGS)} root configurations '
-                f'{CONFIGS} x operations {OPS}; plus packlist.unify_path on every path string.  A (path, config, op) '
+                f'{CONFIGS} x operations {OPS}; plus packlist.unify_path on every path string; plus File handles created by an unconstrained / ancestor-rooted / temporarily unconstrained filesystem handed to open_bin, open_str and File.open_bin.  A (path, config, op) '
                 f'triple is one case and is met once (the segments/separators -> string map is injective).  '
                 f'Non-trivial = the call did anything but answer "absent" for a path that stays inside the root '
                 f'(it raised RootEscapeError, found/opened/listed a file, or failed the oracle); for unify_path: it '
@@ -528,6 +589,9 @@ def replay(case: dict) -> list:
         build_fixture(W)
         world = World(W)
         segs, seps = list(case['segs']), list(case['seps'])
+        if case['op'] == 'foreign_handle':
+            check_foreign_handles(acc, world)
+            return acc.all_failures()
         p = spell(world, segs, seps)
         if case['op'] == 'unify_path':
             check_unify(acc, world, segs, seps, p)
